@@ -67,14 +67,6 @@ theorem transformation_optimal (l : List Obs) (hw : ∀ o ∈ l, 0 ≤ o.w) (z a
     (hN : NormalEqs z al be l) (z' al' be' : ℚ) : wss z al be l ≤ wss z' al' be' l :=
   C06.lsq_optimal l hw z al be hN z' al' be'
 
-/-- the weights multiply both sides row-wise (hence squared in the objective), the centre is
-subtracted on both sides and added back by `do_transformation` -/
-theorem transformation_wiring :
-    Gen.get_transformation_body = "if center is None: center = np.array((0.0, 0.0)) ; assert ref.shape == peaks.shape ; A = np.hstack((ref - center, np.ones((len(ref), 1)))) ; B = np.hstack((peaks - center, np.ones((len(peaks), 1)))) ; if weighs is None: pass else: assert len(ref) == len(weighs) W = np.vstack((weighs, weighs, weighs)).T A *= W B *= W ; fit, res, rank, s = np.linalg.lstsq(A, B, rcond=None) ; return fit"
-    ∧ Gen.do_transformation_body = "if center is None: center = np.array((0, 0)) ; A = np.hstack((peaks - center, np.ones((len(peaks), 1)))) ; B = np.dot(A, matrix) ; return B[:, 0:2] + center"
-    ∧ Gen.find_center_body = "target = np.array((0, 0, 1)).T ; diff = np.identity(3) ; diff[2, 2] = 0 ; result = np.linalg.solve((matrix - diff).T, target) ; return result[0:2]" := by
-  refine ⟨rfl, rfl, rfl⟩
-
 /-- **`find_center` returns the fixed point**: if `c'` solves `(M - diag(1,1,0))ᵀ c' = e₃` for a
 homogeneous matrix `M` (third column `(0,0,1)ᵀ`, acting on row vectors), then `c'₃ = 1` and
 `[c'₁, c'₂, 1] · M = [c'₁, c'₂, 1]`. -/
